@@ -140,4 +140,10 @@ def main(argv):
 
 
 if __name__ == '__main__':
+    # reproducible iteration order of sets of strings: the analysis results do not depend on it, the order in
+    # which states are explored (and thus which witness path is printed) would
+    if os.environ.get('PYTHONHASHSEED') != '0':
+        env = dict(os.environ)
+        env['PYTHONHASHSEED'] = '0'
+        os.execve(sys.executable, [sys.executable, '-m', 'zcsa'] + sys.argv[1:], env)
     sys.exit(main(sys.argv))
